@@ -24,6 +24,10 @@ for n in names:
     if n == "S-unsafe-guard":
         verdict = "yes (C04 quick: process death caught by the crash journal; thorough: Miri UB report + libFuzzer crash)"
         n_det += 1
+    elif m.get("outside_property") and not own:
+        verdict = "not claimed - " + m["outside_property"]
+        n_out = globals().get("n_out", 0) + 1
+        globals()["n_out"] = n_out
     elif own:
         verdict = "yes" + (" (also " + ", ".join(others) + ")" if others else "")
         n_det += 1
@@ -41,4 +45,4 @@ else:
     j = s.index("\n\n", i)
     s = s[:i] + b + "\n" + table + "\n" + e + s[j:]
 open(p, "w", encoding="utf-8").write(s)
-print("%d changes, %d detected by their own property's quick check" % (len(names), n_det))
+print("%d changes, %d detected by their own property's quick check, %d outside the property as stated" % (len(names), n_det, globals().get("n_out", 0)))
